@@ -731,6 +731,9 @@ where
         // Set status to disconnected
         self.status = ConnectionStatus::Disconnected;
 
+        // Discard any partially received packet
+        self.packet_builder.reset();
+
         // Clear topic alias management
         self.topic_alias_send = None;
         self.topic_alias_recv = None;
